@@ -32,9 +32,10 @@ Definition ms_code (r : option ms_err) : N :=
   end.
 
 (** one contract call of a recorded history *)
+(** [kh]: the stored KeyHeights lists (chain, list in stored order) read back after the call *)
 Inductive sop :=
-| SGenesis (h : xheader) (res : N)          (* SyncGenesisHeader(header) *)
-| SBlock (hs : list xheader) (res : N).     (* SyncBlockHeader(headers) *)
+| SGenesis (h : xheader) (res : N) (kh : list (N * list N))        (* SyncGenesisHeader(header) *)
+| SBlock (hs : list xheader) (res : N) (kh : list (N * list N)).   (* SyncBlockHeader(headers) *)
 
 Inductive case :=
 | CVerify (st : hstore) (h : xheader) (res : N)
@@ -51,16 +52,19 @@ Definition same_set (a b : list N) : bool :=
 
 Definition empty_state : cstate := mkC (mkStore [] []) [].
 
-(** run the history; [None] as soon as a recorded result differs *)
+Definition kh_match (c : cstate) (kh : list (N * list N)) : bool :=
+  forallb (fun e => nlist_eqb (get_key_heights (c_store c) (fst e)) (snd e)) kh.
+
+(** run the history; [None] as soon as a recorded result or a recorded key-height list differs *)
 Fixpoint run_ops (c : cstate) (ops : list sop) : option cstate :=
   match ops with
   | [] => Some c
-  | SGenesis h res :: r =>
+  | SGenesis h res kh :: r =>
       let '(rr, c') := sync_genesis c h in
-      if vh_code rr =? res then run_ops c' r else None
-  | SBlock hs res :: r =>
+      if (vh_code rr =? res) && kh_match c' kh then run_ops c' r else None
+  | SBlock hs res kh :: r =>
       let '(rr, c') := sync_block_header c hs in
-      if vh_code rr =? res then run_ops c' r else None
+      if (vh_code rr =? res) && kh_match c' kh then run_ops c' r else None
   end.
 
 Definition case_ok (c : case) : bool :=
